@@ -208,10 +208,31 @@ def coq_box(box):
     return "[" + "; ".join(f"({b(lo)}, {b(hi)})" for lo, hi in box) + "]"
 
 
+class FBox(list):
+    """box whose bounds are NOT dyadic: the listed numbers are the bounds as stored in the space's dtype"""
+
+    def __init__(self, pairs, dtype):
+        super().__init__([(float(dtype(lo)), float(dtype(hi))) for lo, hi in pairs])
+        self.dtype = dtype
+
+
 def np_box(box):
-    lo = np.array([-np.inf if l is None else l for l, _ in box], dtype=np.float32)
-    hi = np.array([np.inf if h is None else h for _, h in box], dtype=np.float32)
-    return spaces.Box(lo, hi, dtype=np.float32)
+    dt = getattr(box, "dtype", np.float32)
+    lo = np.array([-np.inf if l is None else l for l, _ in box], dtype=dt)
+    hi = np.array([np.inf if h is None else h for _, h in box], dtype=dt)
+    return spaces.Box(lo, hi, dtype=dt)
+
+
+def in_space(sp, row):
+    """EXACT membership of the returned numbers (no tolerance): finite, low <= a <= high compared in float64 (every float32
+    is a float64), and action_space.contains on the value cast to the space's dtype when that cast is exact"""
+    a = np.asarray(row, dtype=np.float64)
+    if not np.all(np.isfinite(a)):
+        return False
+    if not (np.all(a >= sp.low.astype(np.float64)) and np.all(a <= sp.high.astype(np.float64))):
+        return False
+    c = a.astype(sp.dtype)
+    return bool(sp.contains(c)) if np.array_equal(c.astype(np.float64), a) else True
 
 
 ACT_CLASS = {"Tanh": "ActPM1", "Softsign": "ActPM1", "Sigmoid": "Act01", "Softmax": "Act01",
@@ -375,7 +396,90 @@ class C14(vlib.Driver):
         cases += self.gen_history(cases, tier, rng)
         cases += self.gen_wrapped(cases, tier, rng)
         cases += self.gen_audit(cases, tier, rng)
+        cases += self.gen_nondyadic(tier, rng)
+        cases += self.gen_offsets(tier, rng)
         return cases
+
+    def gen_nondyadic(self, tier, rng):
+        """Box spaces (float64 and float32) whose bounds are not float32-representable / not dyadic, a saturated policy and
+        noise that pushes past the bound: the returned number must be INSIDE the space's own bounds, exactly"""
+        out = []
+        sat = [[30.0, -30.0, 30.0], [-30.0, 30.0, -30.0], [30.0, 30.0, 30.0], [-30.0, -30.0, -30.0]]
+        k = 0
+        for bname in ("f64", "f32nd"):
+            for fam in ("ddpg", "td3"):
+                for act in ("Tanh", "Sigmoid"):
+                    pre_set = sat if act == "Tanh" else [[200.0 if v > 0 else -200.0 for v in p] for p in sat]
+                    for training in (True, False):
+                        for ou in ((False, True) if training else (False,)):
+                            for single in (False, True):
+                                reps = 2 if tier == "quick" else 6
+                                for rep_ in range(reps):
+                                    k += 1
+                                    B = 1 if single else 3
+                                    pre = pre_set[k % 4]
+                                    noise = [[rng.choice([-0.8, 0.8, 0.8, -0.8, 0.0, 16.0, -16.0]) for _ in range(3)] for _ in range(B)]
+                                    out.append({"fam": fam, "box": bname, "act": act, "pre": pre, "noise": noise, "training": training,
+                                                "ou": ou, "single": single, "B": B, "obs": "vec", "oseed": rng.randrange(10 ** 6)})
+            for fam in ("maddpg_cont", "matd3_cont"):
+                for training in (True, False):
+                    for ou in ((False, True) if training else (False,)):
+                        for single in (False, True):
+                            for rep_ in range(2 if tier == "quick" else 6):
+                                k += 1
+                                B = 1 if single else 2
+                                other = "f32nd" if bname == "f64" else "f64"
+                                out.append({"fam": fam, "boxes": [bname, other], "act": "Tanh", "training": training, "single": single,
+                                            "B": B, "ou": ou, "pre": [sat[k % 4], sat[(k + 1) % 4]],
+                                            "noise": [[[rng.choice([-0.8, 0.8, 0.0, 16.0, -16.0]) for _ in range(3)] for _ in range(B)] for _ in range(2)],
+                                            "eda": None, "oseed": rng.randrange(10 ** 6)})
+            for squash in (False, True):
+                for single in (False, True):
+                    for rep_ in range(2 if tier == "quick" else 6):
+                        B = 1 if single else 3
+                        out.append({"fam": "ppo_box", "box": bname, "squash": squash, "training": False, "single": single, "obs": "vec",
+                                    "B": B, "loc": [rng.choice([-6.0, 0.0, 3.0]) for _ in range(3)],
+                                    "z": [[rng.choice([-4.0, -0.5, 0.0, 1.0, 4.0]) for _ in range(3)] for _ in range(B)],
+                                    "oseed": rng.randrange(10 ** 6)})
+        return out
+
+    OFFSETS = [7.5, -7.5, -150.0]
+
+    def gen_offsets(self, tier, rng):
+        """value functions far from zero (all values >> 0, all << -1, all << -100): every non-empty mask, epsilon in
+        {0, 1/2, 1}, un-batched / batch of 1 / batch of 3, for every masked value-based learner"""
+        out = []
+        ns = [2, 3, 4]
+        k = 0
+        for n in ns:
+            masks = all_masks(n)
+            pats = tie_patterns(n)
+            groups = [("b3", rows) for rows in chunks(masks, 3)] + [("b1", [m]) for m in masks] + [("single", [m]) for m in masks]
+            for off in self.OFFSETS:
+                for shape, rows in groups:
+                    epss = (0.0, 0.5, 1.0) if (shape == "b3" or tier != "quick") else ((0.0, 0.5, 1.0)[k % 3],)
+                    for eps in epss:
+                        k += 1
+                        q = [v + off for v in pats[k % len(pats)]]
+                        single = shape == "single"
+                        B = len(rows)
+                        us = [draws_for(m, rng, ["adversarial", "random", "zeros"][(k + r) % 3]) for r, m in enumerate(rows)]
+                        out.append({"fam": "dqn", "obs": "vec", "single": single, "n": n, "q": q, "masks": rows, "eps": eps,
+                                    "coins": [[0.0, 0.25, 0.75][(k + r) % 3] for r in range(B)], "u": us, "oseed": rng.randrange(10 ** 6),
+                                    "offset": off})
+                        out.append({"fam": "cqn", "obs": "vec", "single": single, "n": n, "q": q, "masks": rows, "eps": eps,
+                                    "coin": [0.0, 0.25, 0.75][k % 3], "u": us, "r": [rng.randrange(n) for _ in rows],
+                                    "oseed": rng.randrange(10 ** 6), "offset": off})
+                    k += 1
+                    vals = [[v + off for v in pats[(k + r) % len(pats)]] for r in range(len(rows))]
+                    out.append({"fam": "rainbow", "obs": "vec", "single": shape == "single", "n": n, "vals": vals, "masks": rows,
+                                "training": bool(k % 2), "oseed": rng.randrange(10 ** 6), "offset": off})
+                for m in masks:
+                    for fam in ("ucb", "ts"):
+                        k += 1
+                        out.append({"fam": fam, "n": n, "vals": [v + off for v in pats[k % len(pats)]], "mask": m,
+                                    "oseed": rng.randrange(10 ** 6), "offset": off})
+        return out
 
     def gen_audit(self, prev, tier, rng):
         """inputs no other generator produces: caller-side dict key order != agent_ids, get_action defaults relied upon,
@@ -599,7 +703,7 @@ class C14(vlib.Driver):
                                       "seeds": max(4, S // 3), "oseed": rng.randrange(10 ** 6)})
         return cases
 
-    MA_BOX_PAIRS = [("asym", "perdim"), ("perdim", "sym"), ("sym", "asym")]
+    MA_BOX_PAIRS = [("asym", "perdim"), ("perdim", "sym"), ("sym", "asym"), ("f64", "f32nd")]
 
     def gen_maddpg(self, tier, rng):
         cases = []
@@ -739,6 +843,9 @@ class C14(vlib.Driver):
         "one": [(-2.0, 6.0)],
         "inf": [(None, None), (None, None)],
         "halfinf": [(None, None), (0.0, 2.0)],
+        # bounds that are not float32-representable: float32(0.1) > 0.1, float32(-0.3) < -0.3, float32(-1.1) < -1.1
+        "f64": FBox([(-0.3, 0.1), (-1.1, 0.7), (0.1, 0.9)], np.float64),
+        "f32nd": FBox([(-0.3, 0.1), (-1.1, 0.7), (0.1, 0.9)], np.float32),
     }
     PRE = {"Tanh": [-30.0, 0.0, 30.0], "Sigmoid": [-200.0, 0.0, 200.0], "Softsign": [-3.0, -1.0, 0.0, 1.0, 3.0],
            None: [-7.0, -0.5, 0.0, 0.75, 9.0]}
@@ -1330,14 +1437,15 @@ class C14(vlib.Driver):
         B, d = case["B"], len(box)
         if obs["shape"] != [B, d]:
             return [Violation("shape", f"{fam}:shape", f"action has shape {obs['shape']}, expected {[B, d]}")]
-        a = np.asarray(obs["action"], dtype=np.float32)
+        a = np.asarray(obs["action"], dtype=np.float64)
         out = []
         for r in range(B):
             if not np.all(np.isfinite(a[r])):
                 out.append(Violation("bounds", f"{fam}:non-finite", f"row {r}: action {a[r].tolist()} is not a finite vector (box {box})"))
-            elif not sp.contains(a[r]):
-                bad = [j for j in range(d) if not (sp.low[j] <= a[r][j] <= sp.high[j])]
-                out.append(Violation("bounds", f"{fam}:out-of-bounds", f"row {r}: action {a[r].tolist()} outside {box} (dims {bad})"))
+            elif not in_space(sp, a[r]):
+                bad = [j for j in range(d) if not (float(sp.low[j]) <= a[r][j] <= float(sp.high[j]))]
+                out.append(Violation("bounds", f"{fam}:out-of-bounds", f"row {r}: action {[repr(x) for x in a[r].tolist()]} outside {box} "
+                                     f"(dims {bad}, space dtype {sp.dtype}, returned dtype {obs.get('dtype')})"))
             elif self.out_of_act_range(case["act"], obs["y"][r]):
                 out.append(Violation("activation", f"{fam}:activation-range", f"row {r}: the policy head advertises {case['act']} "
                                      f"but its output {obs['y'][r]} leaves that activation's range (rescale_action assumes it)"))
@@ -1423,12 +1531,14 @@ class C14(vlib.Driver):
                 if obs["shape"][i] != [B, len(box)]:
                     out.append(Violation("shape", f"{fam}:shape", f"agent {aid}: action shape {obs['shape'][i]}, expected {[B, len(box)]}"))
                     continue
-                a = np.asarray(obs["action"][i], dtype=np.float32)
+                a = np.asarray(obs["action"][i], dtype=np.float64)
                 for r in range(B):
-                    if not sp.contains(a[r]):
-                        out.append(Violation("bounds", f"{fam}:out-of-bounds" + ("" if case["training"] else ":eval"),
-                                             f"agent {aid} row {r}: action {a[r].tolist()} outside {box}"))
-                    if eda[r] is not None and a[r].tolist() != [float(np.float32(v)) for v in eda[r]]:
+                    if not in_space(sp, a[r]):
+                        out.append(Violation("bounds", f"{fam}:out-of-bounds" + ("" if case["training"] else ":eval")
+                                             + (":nondyadic" if isinstance(box, FBox) else ""),
+                                             f"agent {aid} row {r}: action {[repr(x) for x in a[r].tolist()]} outside {box} (space dtype {sp.dtype})"))
+                    if eda[r] is not None and a[r].tolist() != [float(sp.dtype.type(v)) for v in eda[r]] \
+                            and a[r].tolist() != [float(np.float32(v)) for v in eda[r]]:      # a float32 policy stores them as float32
                         out.append(Violation("env-defined", f"{fam}:env-defined-ignored",
                                              f"agent {aid} row {r}: env-defined action {eda[r]} not returned ({a[r].tolist()})"))
             else:
@@ -1485,11 +1595,11 @@ class C14(vlib.Driver):
                                   f"batch is not an element of the {d}-dimensional Box")]
             if not case["training"]:
                 sp = np_box(box)
-                a = np.asarray(obs["action"], dtype=np.float32)
+                a = np.asarray(obs["action"], dtype=np.float64)
                 for r in range(B):
-                    if not sp.contains(a[r]):
+                    if not in_space(sp, a[r]):
                         out.append(Violation("bounds", "ppo_box:out-of-bounds:" + self.site(case),
-                                             f"row {r}: evaluation-mode action {a[r].tolist()} outside {box}"))
+                                             f"row {r}: evaluation-mode action {[repr(x) for x in a[r].tolist()]} outside {box}"))
             return out
         nvec, space = case["nvec"], case["space"]
         B = len(obs["support"])
@@ -1527,7 +1637,7 @@ class C14(vlib.Driver):
                         return out
             if not case["training"]:
                 for r in range(B):
-                    if not sp.contains(np.asarray(acts["b_0"][r], dtype=np.float32)):
+                    if not in_space(sp, acts["b_0"][r]):
                         out.append(Violation("bounds", "ippo:out-of-bounds:eval", f"agent b_0 row {r}: {acts['b_0'][r]} outside {box}"))
                         return out
         return out
@@ -1568,6 +1678,7 @@ class C14(vlib.Driver):
         fam = case["fam"]
         labs = [f"fam={fam}", f"obs={case.get('obs', 'vec')}", "single" if case.get("single") else "batched"]
         labs += ["history=" + "+".join(obs.get("hist_applied", case["hist"]))] if case.get("hist") else ["history=fresh"]
+        labs += [f"offset={case.get('offset', 0)}"]
         labs += [f"wrapper={case.get('wrap', 'none')}", f"args={case.get('args', 'kw')}",
                  f"weights={'pinned' if case.get('pin', True) else 'random'}", f"key-order={case.get('korder', 'agent_ids')}",
                  f"latent={case.get('latent', 'default')}"]
